@@ -79,12 +79,23 @@ def _run_text(conn_a, conn_b, case):
             twin_exc = _err(e)
             break
     twin_table = _table(conn_b)
+    # the caller ends whatever transaction the text left open (COMMIT or ROLLBACK), then looks again
+    fin = []
+    for c in (conn_a, conn_b):
+        try:
+            cur = c.cursor()
+            cur.execute(case.get("finish", "rollback"))
+            fin.append(("rows", [[canon(x) for x in r] for r in cur.fetchall()]))
+        except Exception as e:  # noqa: BLE001
+            fin.append(_err(e))
+    res = {"real": real, "real_exc": real_exc, "real_table": real_table, "twin": twin, "twin_exc": twin_exc, "twin_table": twin_table,
+           "finish": fin, "real_table2": _table(conn_a), "twin_table2": _table(conn_b)}
     for c in (conn_a, conn_b):   # leave no open transaction behind
         try:
             c.cursor().execute("rollback")
         except Exception:  # noqa: BLE001
             pass
-    return {"real": real, "real_exc": real_exc, "real_table": real_table, "twin": twin, "twin_exc": twin_exc, "twin_table": twin_table}
+    return res
 
 
 NOP_SETS = [None, [], ["^call "], [r"^CALL\s", r"create\s+stage"], ["^insert", r"^ *select 'x'"], [r"^/\* *skip"], [".*drop"], ["^nomatch$"], ["(?i)^SELECT 2"],
@@ -184,7 +195,7 @@ def _worker(shard):
 # ------------------------------------------------------------------------------------------------
 def _judge_text(chk, case, res, count_rep, run_rep):
     desc = {"kind": "text", "text": case["text"], "stmts": case["stmts"], "flags": case["flags"], "cls": case["cls"], "rc": case["rc"],
-            "effects": case["effects"], "tbl_ops": case["tbl_ops"], "final": case["final"]}
+            "effects": case["effects"], "tbl_ops": case["tbl_ops"], "final": case["final"], "finish": case.get("finish", "rollback")}
     chk.case(("text", case["text"], case["cls"], case["rc"]), nontrivial=len(case["stmts"]) > 1)
     chk.count("texts")
     chk.count("flags:" + ("all-ok" if set(case["flags"]) <= {"o"} else "exec-failure" if "f" in case["flags"] else "unparseable"))
@@ -193,7 +204,7 @@ def _judge_text(chk, case, res, count_rep, run_rep):
     nbad = next((i for i, f in enumerate(flags) if f != "o"), None)
     # specification from the generator's knowledge: results of the statements before the first bad one, table after them
     want_results = [(e[0], e[1]) for e in case["effects"][: nbad if nbad is not None else len(flags)]]
-    want_table = _spec_table(case, nbad)
+    want_table, want_table2 = _spec_table(case, nbad)
     problems = []
     real_res = None if res["real"] is None else [(r[0], r[1]) for r in res["real"]]
     if nbad is None:
@@ -215,8 +226,10 @@ def _judge_text(chk, case, res, count_rep, run_rep):
             problems.append(f"error {res['real_exc']} ≠ one-by-one error {res['twin_exc']}")
     if res["real_table"] != want_table:
         problems.append(f"table afterwards {_short(res['real_table'])} ≠ {_short(want_table)} (statements before the first failing one applied, later ones not)")
+    if res["real_table2"] != want_table2 or res["finish"][0] != res["finish"][1]:
+        problems.append(f"after the caller's `{case.get('finish')}` ({res['finish'][0]}; one-by-one: {res['finish'][1]}) the table is {_short(res['real_table2'])} ≠ {_short(want_table2)}")
     # the twin must agree with the generator's knowledge, otherwise the harness itself is wrong
-    if res["twin_table"] != want_table or [(r[0], r[1]) for r in res["twin"]] != want_results:
+    if res["twin_table"] != want_table or res["twin_table2"] != want_table2 or [(r[0], r[1]) for r in res["twin"]] != want_results:
         chk.violation(f"harness oracle disagrees with one-by-one execution on `{case['text']}`: twin table {_short(res['twin_table'])} results {_short(res['twin'])}; "
                       f"expected {_short(want_table)} {_short(want_results)}", desc, broken="harness oracle (C16 generator)", failing_input=False)
         return
@@ -230,15 +243,17 @@ def _judge_text(chk, case, res, count_rep, run_rep):
     if run_rep["finding"] != "-":
         impl = run_rep["impl"].split(",")
         # prediction of the model of the code: nothing applied, no cursors, a parse-time error
-        if int(impl[0]) == 0 and res["real_table"] == [] and res["real_exc"] is not None and res["real_exc"][1] in ("ParseError", "TokenError"):
+        if int(impl[0]) == 0 and res["real_table"] == [] and res["real_table2"] == [] and res["real_exc"] is not None and res["real_exc"][1] in ("ParseError", "TokenError"):
             chk.finding(run_rep["finding"], what, desc)
             return
     chk.violation(what, desc, broken="C16_exec_string_partial/C16_stops_at_first_failure/C16_literal_roundtrip (twin-instance comparison)")
 
 
 def _spec_table(case, nbad):
-    # replay the generator's bookkeeping up to the first bad statement
+    """replay the generator's bookkeeping up to the first bad statement: (table as the connection sees it after the text,
+    table after the caller's COMMIT / ROLLBACK)"""
     table: dict[int, str] = {}
+    snapshot = None          # table at BEGIN while a transaction is open
     for j, s in enumerate(case["stmts"]):
         if nbad is not None and j >= nbad:
             break
@@ -247,9 +262,20 @@ def _spec_table(case, nbad):
             continue
         if eff[0] == "put":
             table[eff[1]] = eff[2]
-        else:
+        elif eff[0] == "del":
             table.pop(eff[1], None)
-    return [[("int", k), ("str", v)] for k, v in sorted(table.items())]
+        elif eff[0] == "begin":
+            if snapshot is None:
+                snapshot = dict(table)
+        elif eff[0] == "commit":
+            snapshot = None
+        elif eff[0] == "rollback":
+            if snapshot is not None:
+                table, snapshot = snapshot, None
+    seen = [[("int", k), ("str", v)] for k, v in sorted(table.items())]
+    if case.get("finish", "rollback") == "rollback" and snapshot is not None:
+        table = snapshot
+    return seen, [[("int", k), ("str", v)] for k, v in sorted(table.items())]
 
 
 def _judge_nop(chk, pats, with_opt, without_opt):
@@ -343,8 +369,23 @@ def _gen(rnd, tid, force):
     stmts, flags, effects, tbl_ops = [], [], [], []
     n = rnd.randint(1, 7)
     bad_at = rnd.randrange(n) if force else None
+    tx = rnd.random() < 0.35        # the text opens a transaction (and maybe leaves it open, also at a failure)
+    if tx:
+        n += 1
+        bad_at = None if bad_at is None else bad_at + 1
     for j in range(n):
         k = rnd.random()
+        if tx and j == 0:
+            stmts.append(rnd.choice(["begin", "BEGIN", "begin transaction"]))
+            flags.append("o"); effects.append(("rows", [OK])); tbl_ops.append(("begin",))
+            continue
+        if tx and j == n - 1 and j != bad_at and j > 1 and k < 0.4:
+            w = rnd.choice(["commit", "rollback"])
+            stmts.append(w)
+            flags.append("o"); effects.append(("rows", [OK])); tbl_ops.append((w,))
+            if w == "rollback":
+                table.clear()
+            continue
         if j == bad_at:
             if force == "f":
                 stmts.append(rnd.choice(["select * from missing_tbl", "insert into nowhere values (1)", "select nocolumn from t"]))
@@ -399,7 +440,7 @@ def _gen(rnd, tid, force):
             parts.append(rnd.choice(SEPS))
     parts.append("" if stmts[-1] == "select 'unterminated" else rnd.choice(TAILS))
     return {"kind": "text", "tid": tid, "text": "".join(parts), "stmts": stmts, "flags": "".join(flags), "effects": effects, "tbl_ops": tbl_ops,
-            "final": sorted(table.items()), "cls": rnd.choice(["tuple", "tuple", "dict"]), "rc": rnd.random() < 0.9}
+            "final": sorted(table.items()), "cls": rnd.choice(["tuple", "tuple", "dict"]), "rc": rnd.random() < 0.9, "finish": rnd.choice(["commit", "rollback"])}
 
 
 def _execute(chk, cases):
@@ -449,7 +490,7 @@ def replay(chk, case) -> None:
     if case.get("kind") == "text":
         c = dict(case)
         c["effects"] = [None if e is None else (e[0], [[tuple(x) for x in row] for row in e[1]]) for e in case["effects"]]
-        c["tbl_ops"] = case.get("tbl_ops") or [None] * len(case["stmts"])
+        c["tbl_ops"] = [None if t is None else tuple(t) for t in (case.get("tbl_ops") or [None] * len(case["stmts"]))]
         _execute(chk, [c])
     elif case.get("kind") == "nop":
         _execute(chk, [{"kind": "nop", "pats": None}, {"kind": "nop", "pats": case["pats"]}])
